@@ -66,6 +66,10 @@ def cases(tier, seed):
         for opb in OPS:
             for m in alpha:
                 yield ('X', opa, opb, m)
+    # the same model object analysed, edited in place, analysed again by the same operation object
+    for op in OPS:
+        for m in sp.structures_upto(3 if tier == 'quick' else 4):
+            yield ('HE', op, m)
     for m in sp.structures_upto(3 if tier == 'quick' else 4):
         for leaves_only in (False, True):
             for pre in ('none', 'some', 'all'):
@@ -94,6 +98,8 @@ def describe(case):
         return 'H:%s | %s' % (case[1], ' -> '.join(sh.model_str(m) for m in case[2]))
     if case[0] == 'X':
         return 'X:%s,%s | %s' % (case[1], case[2], sh.model_str(case[3]))
+    if case[0] == 'HE':
+        return 'HE:%s | %s' % (case[1], sh.model_str(case[2]))
     return 'G:%s | leaves=%s pre=%s domain=%s dev<=%d' % (sh.model_str(case[1]), case[2], case[3], case[4], case[5])
 
 
@@ -109,6 +115,9 @@ def reduce(case):
     elif case[0] == 'X':
         for r in sh.reductions(case[3], sp.NAME_POOL):
             yield ('X', case[1], case[2], r)
+    elif case[0] == 'HE':
+        for r in sh.reductions(case[2], sp.NAME_POOL):
+            yield ('HE', case[1], r)
     else:
         for r in sh.reductions(case[1], sp.NAME_POOL):
             yield ('G', r) + tuple(case[2:])
@@ -142,12 +151,52 @@ def _norm(res):
     return ('value', res)
 
 
-def _exec(op, opname, fm):
+def _exec(op, opname, fm, raw=False):
     if opname == 'FMFeatureAncestors':
         op.set_feature(fm.get_features()[-1])
     r = op.execute(fm).get_result()
     engine.tick()
-    return _norm(r)
+    return r if raw else _norm(r)
+
+
+def _canon(res, suffix=''):
+    """Order-insensitive form (lists that come from set iteration may be ordered by string hash,
+    which changes with the names), with the unique suffix removed."""
+    def st(x):
+        return x.replace(suffix, '') if isinstance(x, str) and suffix else x
+    if isinstance(res, list) and res and all(isinstance(x, dict) for x in res):
+        out = []
+        for r in res:
+            val = r.get('result')
+            if isinstance(val, list):
+                val = tuple(sorted(st(str(v)) for v in val))
+            else:
+                val = st(val) if isinstance(val, str) else val
+            out.append((r.get('name'), val, r.get('size'), r.get('ratio')))
+        return tuple(sorted(out, key=repr))
+    return _strip(_norm(res), suffix) if suffix else _norm(res)
+
+
+_UNIQ = [0]
+
+
+def _unique_copy(model):
+    import os
+    _UNIQ[0] += 1
+    suffix = 'q%dx%dq' % (os.getpid(), _UNIQ[0])
+    mapping = {n: n + suffix for n in sh.names(model)}
+
+    def ren_f(f):
+        return (mapping[f[0]], tuple((a, b, tuple(ren_f(k) for k in kids)) for (a, b, kids) in f[1]), f[2], f[3], f[4], f[5])
+    return (ren_f(model[0]), tuple((n, cm.map_names(t, mapping)) for n, t in model[1])), suffix
+
+
+def _strip(x, suffix):
+    if isinstance(x, str):
+        return x.replace(suffix, '')
+    if isinstance(x, tuple):
+        return tuple(_strip(y, suffix) for y in x)
+    return x
 
 
 def _full_snapshot(fm):
@@ -182,6 +231,18 @@ def _check_history(opname, seq):
             return [Fail('fresh-raises:%s' % type(exc).__name__, str(exc)[:200])]
         if got != fresh:
             out.append(Fail('result-depends-on-history', {'step': i, 'op': opname, 'got': repr(got)[:200], 'fresh': repr(fresh)[:200]}))
+        # the same model under names never used before in this process: state keyed by names
+        # (caches over Feature / Relation, which hash by name) cannot be hit by it
+        try:
+            renamed, suffix = _unique_copy(model)
+            pristine = _canon(_exec(getattr(ops, opname)(), opname, bd.build(renamed), raw=True), suffix)
+            again = _canon(_exec(getattr(ops, opname)(), opname, bd.build(model), raw=True))
+        except Exception as exc:  # noqa: BLE001
+            return [Fail('fresh-raises:%s' % type(exc).__name__, str(exc)[:200])]
+        if again != pristine:
+            got = again
+            out.append(Fail('result-depends-on-process-history', {'step': i, 'op': opname, 'got': repr(got)[:200],
+                                                                   'never-seen-names': repr(pristine)[:200]}))
         if out:
             break
     return out
@@ -402,7 +463,34 @@ def _explore(model, leaves_only, pre, domkey, bound):
     return list(fails.values())
 
 
+def _check_edit_history(opname, model):
+    from .c03 import inplace_edits
+    out = []
+    for (what, edit, em) in inplace_edits(model):
+        fm, fails = cm.built(model)
+        if fails:
+            return fails
+        op = getattr(ops, opname)()
+        try:
+            _exec(op, opname, fm)
+            edit(fm)
+            if bd.observe(fm) != em:
+                raise AssertionError('in-place edit did not give the expected model: %s' % what)
+            got = _canon(_exec(op, opname, fm, raw=True))
+            fresh = _canon(_exec(getattr(ops, opname)(), opname, bd.build(em), raw=True))
+        except AssertionError:
+            raise
+        except Exception as exc:  # noqa: BLE001
+            return [Fail('edit-history-raises:%s' % type(exc).__name__, {'edit': what, 'msg': str(exc)[:200]})]
+        if got != fresh:
+            out.append(Fail('result-stale-after-inplace-edit', {'op': opname, 'edit': what, 'got': repr(got)[:200], 'fresh': repr(fresh)[:200]}))
+            break
+    return out
+
+
 def check(case):
+    if case[0] == 'HE':
+        return _check_edit_history(case[1], case[2])
     if case[0] == 'H':
         return _check_history(case[1], case[2])
     if case[0] == 'X':
